@@ -237,11 +237,19 @@ impl Gate {
 #[derive(Default)]
 pub struct HookLog {
     pub events: std::sync::Mutex<Vec<(String, u64)>>,
+    /// simulated time of each event, parallel to `events`
+    pub times: std::sync::Mutex<Vec<u64>>,
 }
 impl HookLog {
     pub fn push(&self, what: &str, peer: u64) {
         simkernel::event(|| format!("hook {what} peer={peer}"));
         self.events.lock().unwrap().push((what.to_string(), peer));
+        self.times.lock().unwrap().push(simkernel::now_ns());
+    }
+    pub fn time_of(&self, what: &str, peer: u64) -> Option<u64> {
+        let ev = self.events.lock().unwrap();
+        let t = self.times.lock().unwrap();
+        ev.iter().position(|e| e.0 == what && e.1 == peer).and_then(|i| t.get(i).copied())
     }
     pub fn of_peer(&self, peer: u64) -> Vec<String> {
         self.events.lock().unwrap().iter().filter(|e| e.1 == peer).map(|e| e.0.clone()).collect()
